@@ -294,7 +294,13 @@ class ShelfCreator:
         """
         kind, name, parent, versioned = self.deletion[file_id]
         existing_path = self.target_tree.id2path(file_id)
-        if not self.work_tree.has_filename(existing_path):
+        if (
+            versioned[1]
+            or not self.work_tree.has_filename(existing_path)
+            or self.work_tree.is_versioned(existing_path)
+        ):
+            # only an unversioned copy left behind by "remove --keep" is
+            # adopted; whatever else sits at the old path is another entry
             existing_path = None
         version = not versioned[1]
         self._shelve_creation(
